@@ -1,0 +1,24 @@
+//go:build verif
+
+package exponential_backoff
+
+// Contracts for the verification framework in /verif (comment-only file, build tag `verif`).
+
+// C04: the back-off delay after a failed run is never shorter than the initial delay (for an
+// initial delay that is a multiple of the 100ms granularity, as all configured ones are) and never
+// longer than the maximum; the first retry waits exactly the initial delay.
+//@ func CalculateDelayWithMax
+//@   prop C04
+//@   requires retryCount >= 0 && 0 <= initialDelay && initialDelay <= maxDelay
+//@   modifies nothing
+//@   ensures [first-retry]  retryCount == 0 ==> result == initialDelay
+//@   ensures [at-most-max]  result <= maxDelay
+//@   ensures [not-shorter]  initialDelay % (100 * time.Millisecond) == 0 ==> result >= initialDelay
+//@   ensures [non-negative] result >= 0
+
+//@ func CalculateDelay
+//@   prop C04
+//@   requires retryCount >= 0 && 0 <= initialDelay && initialDelay <= MaxExponentialBackoffDelay
+//@   modifies nothing
+//@   ensures [not-shorter] initialDelay % (100 * time.Millisecond) == 0 ==> result >= initialDelay
+//@   ensures [at-most-max] result <= MaxExponentialBackoffDelay
